@@ -226,6 +226,7 @@ let () =
         | None -> let x = { reqs = 0; cbs = []; ret = None; req_line = -1; api = "?" } in
           Hashtbl.add toks t x; order := t :: !order; x in
       let init = ref None and expect = ref None and scen = ref "?" in
+      let reinit_stuck = ref false in
       let failline = ref (-1) and failsite = ref "" and leaks = ref [] in
       let live = ref None and pending = ref 0 and dups = ref 0 in
       let api = ref [] and monitor = ref false and ended = ref false in
@@ -256,6 +257,7 @@ let () =
              | Some (st, pay) -> let x = get t in x.cbs <- x.cbs @ [(st, (md5_8 pay, payload_items pay))]
              | None -> ())
         end
+        else if starts_with "REINIT " l && (match kv "stuck" l with Some "1" -> true | _ -> false) then reinit_stuck := true
         else if starts_with "ALLOCFAIL" l then (if !failline < 0 then failline := li)
         else if starts_with "FAILSITE " l then (if !failsite = "" then failsite := after "FAILSITE " l)
         else if starts_with "LEAK " l then
@@ -350,6 +352,9 @@ let () =
             if not (Hashtbl.mem seen kind) then begin
               Hashtbl.add seen kind (); incr nfail;
               Printf.printf "FAIL %d %s %s\n" k kind det end in
+          (* "the channel remains usable": a reload whose helper thread never cleared the pending
+             mark leaves the channel unable to be reconfigured ever again *)
+          if !reinit_stuck then emit ("reinit-stuck:" ^ fkey) (detail "ares_reinit: the reload never finished (reinit_pending still set 2 s later); every later ares_reinit is a no-op");
           List.iter (fun v -> match v with
             | VLeak (b, by) ->
               let ls = if !leaks = [] then ["?"] else List.sort_uniq compare !leaks in
